@@ -30,6 +30,11 @@ static void monitor_fail(const char *what) {
 int LLVMFuzzerInitialize(int *argc, char ***argv) {
     (void)argc; (void)argv;
     zck_set_log_level(ZCK_LOG_NONE);
+    if(getenv("FZ_DEBUG_LOG")) {
+        /* message formatting sees the hostile bytes too (what the tools do with -vv); output discarded */
+        int nfd = open("/dev/null", O_WRONLY);
+        if(nfd >= 0) { zck_set_log_fd(nfd); zck_set_log_level(ZCK_LOG_DEBUG); }
+    }
     int wfd = memfd_create("fzB", 0);
     zckCtx *w = zck_create();
     if(!zck_init_write(w, wfd)) abort();
